@@ -20,19 +20,22 @@ pub const F_DEEP: &str = "F17-3";
 const DEEP_FROM: usize = 500;
 
 pub fn build_server_binary() -> Result<PathBuf, String> {
+    // VERIF_REPO_MANIFEST / VERIF_TARGET_BIN point a validation run at a scratch worktree of /repo
+    let manifest = std::env::var("VERIF_REPO_MANIFEST").unwrap_or_else(|_| "/repo/Cargo.toml".into());
+    let target = std::env::var("VERIF_TARGET_BIN").unwrap_or_else(|_| "/verif/target-bin".into());
     let out = Command::new("cargo")
         .args([
             "build",
             "--offline",
             "--manifest-path",
-            "/repo/Cargo.toml",
+            manifest.as_str(),
             "-p",
             "worterbuch",
             "--no-default-features",
             "--features",
             "redb",
             "--target-dir",
-            "/verif/target-bin",
+            target.as_str(),
         ])
         .stdin(Stdio::null())
         .output()
@@ -42,7 +45,7 @@ pub fn build_server_binary() -> Result<PathBuf, String> {
         let tail: String = err.chars().rev().take(4000).collect::<String>().chars().rev().collect();
         return Err(tail);
     }
-    let bin = PathBuf::from("/verif/target-bin/debug/worterbuch");
+    let bin = PathBuf::from(format!("{target}/debug/worterbuch"));
     if bin.exists() { Ok(bin) } else { Err("binary missing after the build".into()) }
 }
 
